@@ -1,4 +1,5 @@
 """C38 — asynchronous getaddrinfo: source precedence and callback/return agreement by evaluation of evdns_getaddrinfo (K6/K3), port stamping of copied answers (K3)."""
+import re
 from ..core import Rule
 from ..prog import *
 from ..facts import AnalysisBroken
@@ -240,6 +241,133 @@ def rule_cachettl(P):
     return r
 
 
+def rule_union(P):
+    """evdns_getaddrinfo_gotresolve as a decision table: which sub-request answered x what it answered x the state of the other one.  The user hears the union of both families:
+    nothing is reported (and the other request is left alone) while the other family is still out; the answers are kept, in A-before-AAAA order; an error of one family is dropped
+    when the other has answers; what is cached lives no longer than the shorter of the two TTLs."""
+    r = Rule("C38-union", "K6", "getaddrinfo merge: no report and no cancellation while the other family is pending; union of both answers, A first; an error yields to answers; cache TTL = the shorter of the two", floor=40)
+    f = P.fn("evdns_getaddrinfo_gotresolve")
+    C = {}
+    for g in P.fns_in("evdns.c"):
+        for x in [el.e for el in g.elems()] + [b.term["cond"] for b in g.branch_blocks()]:
+            for q in walk(x):
+                if is_e(q, "int") and len(q) > 2 and isinstance(q[2], str) and re.match(r"^(DNS_ERR_|DNS_IPv|EVUTIL_EAI_)", q[2]):
+                    C.setdefault(q[2], q[1])
+    for e in P.enums.values():
+        for n, v in e["items"]:
+            C.setdefault(n, v)
+    need = ("DNS_ERR_NONE", "DNS_ERR_NOTEXIST", "DNS_ERR_SERVERFAILED", "DNS_IPv4_A", "DNS_IPv6_AAAA", "EVUTIL_EAI_NODATA")
+    if any(n not in C for n in need):
+        r.brk("constants not found: %s" % [n for n in need if n not in C])
+        return r
+    result_p, type_p, count_p, ttl_p, addr_p, arg_p = [x[0] for x in f.params]
+    reqv, othv, datav = ["var", "req", "local"], ["var", "other_req", "local"], ["var", "data", "local"]
+    K = lambda v, fl: nkey(["fld", v, fl, "->"])
+    base_lock = nkey(["fld", ["fld", datav, "evdns_getaddrinfo_request.evdns_base", "->"], "evdns_base.lock", "->"])
+    nocache = nkey(["fld", ["fld", datav, "evdns_getaddrinfo_request.evdns_base", "->"], "evdns_base.disable_cache", "->"])
+    answers = [("answer", C["DNS_ERR_NONE"], 2), ("nodata", C["DNS_ERR_NONE"], 0), ("nxdomain", C["DNS_ERR_NOTEXIST"], 0), ("servfail", C["DNS_ERR_SERVERFAILED"], 0)]
+    others = [("pending", 5, 0, 0), ("never-started-or-done-empty", 0, 0, 0), ("done-with-answers", 0, 800, 0), ("done-with-error", 0, 0, C["EVUTIL_EAI_NODATA"])]
+    for typ in ("DNS_IPv4_A", "DNS_IPv6_AAAA"):
+        for aname, result, count in answers:
+            for oname, other_r, pend_res, pend_err in others:
+                for ttl, pttl in ((60, 300), (300, 60)):
+                    env = {"#typed": 1, "event_debug_logging_mask_": 0, result_p: result, type_p: C[typ], count_p: count, ttl_p: ttl, addr_p: 70, arg_p: 7, "#ops": (),
+                           K(reqv, "getaddrinfo_subrequest.type"): C[typ], K(othv, "getaddrinfo_subrequest.r"): other_r, K(datav, "evdns_getaddrinfo_request.user_canceled"): 0,
+                           K(datav, "evdns_getaddrinfo_request.user_cb"): 9, K(datav, "evdns_getaddrinfo_request.pending_result"): pend_res, K(datav, "evdns_getaddrinfo_request.pending_error"): pend_err,
+                           K(datav, "evdns_getaddrinfo_request.pending_result_ttl"): pttl, K(datav, "evdns_getaddrinfo_request.evdns_base"): 3, base_lock: 0, nocache: 0,
+                           K(datav, "evdns_getaddrinfo_request.port"): 80, K(datav, "evdns_getaddrinfo_request.user_data"): 0, K(datav, "evdns_getaddrinfo_request.nodename"): 0}
+
+                    def hook(el, e_):
+                        n = callee_name(el.e)
+                        a = el.e[2]
+                        sl = el.e[1][1].split(".")[-1] if isinstance(el.e[1], list) and el.e[1] and el.e[1][0] == "slot" else None
+                        def op(x):
+                            e_["#ops"] = e_["#ops"] + (x,)
+                        try:
+                            if sl == "user_cb":
+                                op(("user_cb", evalx(normx(a[0]), e_, P), evalx(normx(a[1]), e_, P)))
+                                return 0
+                            if sl in ("lock", "unlock"):
+                                return 0
+                            if n in ("evdns_err_to_getaddrinfo_err", "getaddrinfo_merge_err", "evdns_result_is_answer"):
+                                return "inline"
+                            if n == "evdns_cancel_request":
+                                op(("cancel-other",))
+                                return 0
+                            if n == "evdns_getaddrinfo_set_timeout":
+                                op(("wait",))
+                                return 0
+                            if n == "free_getaddrinfo_request":
+                                op(("free",))
+                                return 0
+                            if n == "evdns_cache_write":
+                                op(("cache", evalx(normx(a[2]), e_, P), evalx(normx(a[3]), e_, P)))
+                                return 0
+                            if n == "evutil_new_addrinfo_":
+                                return 500
+                            if n == "evutil_addrinfo_append_":
+                                x, y = evalx(normx(a[0]), e_, P), evalx(normx(a[1]), e_, P)
+                                if y == 500:
+                                    return 700          # this family's own list
+                                return ("merged", x, y)
+                            if n in ("memcpy", "memset", "add_cname_to_reply", "evutil_freeaddrinfo", "__builtin_memcpy", "__builtin_memset", "__builtin___memcpy_chk", "__builtin___memset_chk"):
+                                return 0
+                            if n in ("htons", "__bswap_16"):
+                                return evalx(normx(a[0]), e_, P)
+                        except EvalError as ex:
+                            e_["#err"] = str(ex)
+                            return "impure"
+                        return None
+                    outs = [o for o in run_all(f, (f.entry, 0), env, lambda el: False, P, hook, max_steps=3000) if not (o.kind == "exit" and o.why == "noreturn")]
+                    for o in outs:
+                        if o.kind == "unknown":
+                            r.brk("evdns_getaddrinfo_gotresolve(%s %s, other %s): %s %s" % (typ, aname, oname, o.why, o.env.get("#err", "")))
+                            return r
+                        ops = list(o.env["#ops"])
+                        cbs = [x for x in ops if x[0] == "user_cb"]
+                        r.inst((typ, aname, oname, ttl, pttl), {"answered": typ, "with": aname, "other_family": oname, "ttl": ttl, "pending_ttl": pttl, "actions": [[str(y) for y in x] for x in ops]})
+                        bad = None
+                        mine = 700 if aname == "answer" else None
+                        if oname == "pending":
+                            if cbs or ("cancel-other",) in ops:
+                                bad = ("reported-early", "the other family is still out, yet: %s (its answer could still arrive: the union would lose it)" % ops)
+                            elif ("wait",) not in ops:
+                                bad = ("no-wait", "nothing waits for the other family: %s" % ops)
+                            elif mine and o.env.get(K(datav, "evdns_getaddrinfo_request.pending_result")) != 700:
+                                bad = ("answers-not-kept", "this family's answers are not kept for the merge")
+                        else:
+                            if len(cbs) != 1:
+                                bad = ("callbacks", "%d user callbacks: %s" % (len(cbs), ops))
+                            else:
+                                _, err, res = cbs[0]
+                                have = [x for x in ((700 if mine else None), (800 if pend_res else None)) if x]
+                                if have:
+                                    if len(have) == 2:
+                                        want = ("merged", 700, 800) if typ == "DNS_IPv4_A" else ("merged", 800, 700)
+                                    else:
+                                        want = have[0]
+                                    if err != 0 or res != want:
+                                        bad = ("union", "reports error %r, list %r; expected success with %r (both families' answers, A first)" % (err, res, want))
+                                    else:
+                                        cw = [x for x in ops if x[0] == "cache"]
+                                        lim = min(ttl, pttl) if len(have) == 2 else (ttl if mine else pttl)
+                                        if not cw or cw[0][1] != want:
+                                            bad = ("cache", "the reported list is not what is cached: %s" % cw)
+                                        elif cw[0][2] > lim:
+                                            bad = ("cache-ttl", "the merged answer is cached for %d s; the shorter of the two TTLs is %d s (a cached answer would outlive the TTL of part of it)" % (cw[0][2], lim))
+                                elif err == 0 or res not in (0, None):
+                                    bad = ("error", "no family answered, yet reports %r with list %r" % (err, res))
+                        if bad:
+                            r.bad("K6:evdns_getaddrinfo_gotresolve:%s" % bad[0], "%s:%d" % (f.file, f.line), f.name, "%s answers %s (ttl %d), other family %s (ttl %d): %s" % (typ, aname, ttl, oname, pttl, bad[1]))
+    seen, uniq = set(), []
+    for f_ in r.findings:
+        if f_.key not in seen:
+            seen.add(f_.key)
+            uniq.append(f_)
+    r.findings = uniq
+    return r
+
+
 def run(ctx, config):
     P = ctx.prog(UNITS, config)
-    return [rule_precedence(P), rule_port(P), rule_cachettl(P)]
+    return [rule_precedence(P), rule_port(P), rule_cachettl(P), rule_union(P)]
